@@ -13,6 +13,7 @@ CFG = {
             "frames then Close triggered by a kill signal on the input goroutine, half of them with 2-9 keys pending (F13's region); Close while suspended; SetAppID then input-goroutine panic in a child process; a real SIGTERM sent by the parent to a child process whose Vaxis has its signal handlers installed "
             "(with / without in-band resize: setupSignals branches on it) — the process must survive and restore the terminal); "
             "round 4, every eighth configuration each: kill signal while suspended (served by the input goroutine Resume starts; wire = Resume's tokens then Close's), kill signal before the first frame, kill signal mid-frame forced through console.Reset() (F404); "
+            "New failing half-way on a console whose size cannot be read (six capability sets: `startupfail`, F405 repaired); the four signal children get SIGTERM / SIGINT / SIGQUIT / SIGABRT; with mouse reporting disabled the pointer shape is changed in the last frame; "
             "a session is judged only when start-up saw the fake terminal's answers (stored cursor style / app id / capability flags = configured ones; otherwise start-up is repeated, finally `incomplete`); "
             "the oracle compares with the fake terminal's own original cursor style / application id, not with what Vaxis stored; "
             "every frame line is also judged against the hypotheses Op.ok of the session theorem (admissible tokens, no hyperlink left open); "
